@@ -89,6 +89,19 @@ def requirement_holds(P, b, req):
                         if pos[0] in body and (h, 0) in x.reach_from(pos):
                             return False
         return ok_any
+    if kind == 'cmpcall':
+        # a comparison <op> one of whose operands is the result of a call matching <rx> (e.g. `index < list.len()`)
+        op, _, rx = rest.partition(':')
+        from flow import origins, is_local_op
+        for x in bodies:
+            for pos, st in x.iter_stmts():
+                if st['k'] == 'assign' and st['rv']['k'] == 'bin' and st['rv']['op'] in (op, FLIP.get(op)):
+                    for o in (st['rv']['a'], st['rv']['b']):
+                        if is_local_op(o):
+                            for org in origins(x, o):
+                                if org[0] not in ('param', 'const', 'place') and isinstance(org[1], dict) and org[1].get('k') == 'call' and call_matches(org[1], rx):
+                                    return True
+        return False
     if kind == 'cmp':
         op, _, var = rest.partition(':')
         var, _, const = var.partition(':')
